@@ -287,8 +287,11 @@ def resource_catalogue():
     return c
 
 
-# One pinned minimal input per crash signature found so far (see docs/notes_C19_C16.md).  Each reaches its
-# signature deterministically, so a known-findings entry is observed at every seed.
+# One pinned minimal input per crash signature found so far (see docs/notes_C19_C16.md).  While a defect is
+# open its pin reaches the signature deterministically, so a known-findings entry is observed at every seed;
+# once it is repaired (patch series c16fix 01-14) the same input stays here as a REGRESSION GUARD: the general
+# oracle then expects exit ok/fail with a diagnostic, and evidence lists it under
+# `pinned_inputs_that_no_longer_crash` / counts it out of `pinned_crashers_still_crashing`.
 PINNED = [
     "typeof 5\n",                                              # declaration.rs  unreachable!("typeof is not supported")
     "x: [int, str...] = 1\n",                                  # type.rs         unreachable!(open_ended_type) in list_type
@@ -314,11 +317,35 @@ PINNED = [
 ]
 
 
+# Further spellings of the same defects (found while shrinking / probing the neighbourhood): regression
+# guards only — after the repairs each must compile or be rejected with a diagnostic.
+GUARDS = [
+    "typeof \n", "typeof typeof\n", "if true { typeof 5 }\n",                       # 01
+    "type b [,fn...]\n", "x = ( [ ] != fn ( ) -> [ [ , fn ...] ] { } )\n",           # 02
+    "( or [ c ] ) . or = K\n", "( m . push ) . v = u_\n", "(a[0]).c = 1\n",          # 03
+    "[][0]\n", "[ k ] = [ ]\n", "[] [ false ]\n", "const x = []\ny = x[0]\n",        # 04
+    "f = fn() { import . }\n", "import ..ms\n", "f = fn() { import ./. }\n",         # 05
+    'fn() { if 3 == 0 { result = "Fizz" if 5 == 0 { result or "" } } }\n',          # 06 (legal: exit 0)
+    'x: str? = "abc"\ny: str? = nil\nz = x or y\n',                                 # 06
+    "class A { fn c(, self: int) { } }\n", "class A { constructor(self: A) { } }\n",  # 07
+    "x = 0b100000000\n",                                                            # 08
+    "const x = [1, 2]\ny = x[0.5]\n", "x = [1] x[31.5 ]\n", "x = [1]\ny = x[2f]\n",   # 09
+    "f = fn() { - false }\n", "while false { - false }\n", "from 1 to 3 { - false }\n",
+    "class A { constructor(self) { - false } }\n", "if true { } else { - false }\n",  # 10
+    "f = fn(a: bool, b: bool) -> bool { return a }\nf(true, - false)\n",             # 11
+    "x = map[str, int] { typeof : 1 }\n",                                            # 12
+    "class A { constructor(self) -> (fn()) { } }\n", "class A { constructor(self) -> int? { } }\n",  # 13
+    "a = 5\nf = fn() { a = typeof }\n", "a = 5\nf = fn() { modify a = typeof }\n",    # 14
+]
+
+
 def pinned_catalogue():
     out = []
     for i, p in enumerate(PINNED):
         files = p if isinstance(p, dict) else {"main.ms": p}
         out.append(("pin:%d" % i, files, "main.ms"))
+    for i, p in enumerate(GUARDS):
+        out.append(("guard:%d" % i, {"main.ms": p}, "main.ms"))
     return out
 
 
@@ -428,7 +455,7 @@ def work(item):
         progs = corpus_programs()
         pins = pinned_catalogue()
         for i in range(n):
-            if pins and rng.random() < 0.06:
+            if pins and rng.random() < 0.06:      # mutants of the pinned crashers / guards: their neighbourhood
                 name, files, entry = rng.choice(pins)
             else:
                 name, files, entry = rng.choice(progs)
@@ -672,8 +699,8 @@ def plan(ctx):
     items = [("cat", i, 8) for i in range(0, ncat, 8)]
     items += [("cover", i, 12) for i in range(0, len(g.alts), 12)]
     base = ctx.seed * 1000003
-    n_gen, n_mutgen, n_mutcorpus = ctx.n((2000, 900, 2900), (60000, 30000, 110000))
-    chunk = ctx.n(50, 250)
+    n_gen, n_mutgen, n_mutcorpus = ctx.n((8000, 4000, 12000), (60000, 30000, 110000))
+    chunk = ctx.n(100, 250)
     k = 0
     for kind, n in (("gen", n_gen), ("mutgen", n_mutgen), ("mutcorpus", n_mutcorpus)):
         for _ in range(0, n, chunk):
@@ -783,7 +810,8 @@ def run(ctx):
         "rules_unreachable_from_file": [r for r in g.order if r not in reachable],
         "exit_classes": cls_tot, "inputs_by_origin": origin_tot, "token_edits_applied": edits_tot,
         "failed_with_diagnostic": fail_diag, "mean_input_bytes": round(nbytes / max(1, out.evaluations), 1),
-        "catalogue_shapes": len(resource_catalogue()), "pinned_crashers": len(pinned_catalogue()),
+        "catalogue_shapes": len(resource_catalogue()), "pinned_crashers": len(PINNED),
+        "regression_guards(further spellings)": len(GUARDS),
         "pinned_crashers_still_crashing": sum(1 for v in pins.values() if v),
         "pinned_inputs_that_no_longer_crash(repaired?)": sorted(
             "%s %r" % (k, PINNED[int(k.split(":")[1])][:60]) for k, v in pins.items() if not v),
